@@ -1669,7 +1669,10 @@ def apply_sustain_control_changes(note_sequence, sustain_control_number=64):
   for instrument in active_notes.values():
     for note in instrument:
       note.end_time = time
-      sequence.total_time = time
+      # Never shorten the sequence: a drum note (not an event here) may end
+      # after the last pitched note or pedal event.
+      if time > sequence.total_time:
+        sequence.total_time = time
 
   return sequence
 
